@@ -95,6 +95,11 @@ pub fn check_reader(record: &[u8], stream: &[u8], cuts: &[usize]) -> Result<(), 
             }
             Err(e) => return Err(fail!("reader:error", "segment {i} cuts {:?}: {e}", cuts)),
         }
+        // the reader's accessors tell the same story as the return values: nothing before completion, the reported signature afterwards
+        let have = reader.get_signature().map(sig_debug);
+        if reader.signature_parsed() != have.is_some() || have.is_some() != (reported > 0) || have.as_ref().map(|h| *h != expect).unwrap_or(false) {
+            return Err(fail!("reader:accessors-disagree-with-the-reported-result", "after segment {i} (bytes ..{delivered}, record {}): reported so far {reported}, signature_parsed {}, get_signature {:?} cuts {:?}", record.len(), reader.signature_parsed(), have.map(|h| crate::engine::truncate(&h, 80)), cuts));
+        }
     }
     if reported != 1 {
         return Err(fail!("reader:never-reported", "cuts {:?}", cuts));
